@@ -21,7 +21,10 @@ What is proved here, each for EVERY configuration / state / schedule it quantifi
   `good_round_precommit_stage`, `good_round_commit_stage`): complete valid proposal ⇒ prevote for it;
   +2/3 prevotes for it ⇒ lock and precommit; +2/3 precommits ⇒ decision in that round;
 * for every schedule of the network model (any interleaving of deliveries, faulty messages, claims,
-  timeouts, closures): `decisions_are_final`, `log_only_grows`;
+  timeouts, closures): `decisions_are_final`, `log_only_grows`,
+  `commit_waiting_node_decides_on_delivery` (a node still in the commit step decides when the block
+  is delivered and keeps the decision in every continuation); the discipline of the synchronous
+  suffix (`suffix_timeout_needs_closed_net`, `suffix_timeouts_in_time_order`);
 * `termination_fails_after_leaving_commit_step`: the full statement `Termination` is FALSE of the
   model (and of the code: the same schedule is corpus/C03/commit-seen-then-round-skip.ops and is
   replayed on real nodes on every run — known finding): a node that has seen a commit without the
@@ -195,6 +198,35 @@ theorem log_only_grows (c : SCfg) (net : Net) (ops : List Op) :
     (∃ ext, (net.run c ops).log = net.log ++ ext) ∧ (net.run c ops).nodes.length = net.nodes.length :=
   (run_pres c ops net).2
 
+/-- **a node that knows the commit and is still in the commit step decides as soon as the block is
+delivered, and keeps that decision in every continuation** (the "decision seen without its block"
+prefix of the property, for the nodes the defect below has not pulled out of the commit step):
+node `i` is live, in the commit step for round `r`, set up for block `b` which is log entry `k`. -/
+theorem commit_waiting_node_decides_on_delivery (c : SCfg) (net : Net) (i k r b : Nat) (nd : Node)
+    (hi : net.nodes[i]? = some nd) (hk : net.log[k]? = some (.block b))
+    (hh : nd.s.halted = false) (hd : nd.s.decided = none)
+    (hst : nd.s.step = .commit) (hcr : nd.s.commitRound = (r : Int))
+    (hm : maj23Of (nd.s.votes.precommits (r : Int)) = some (some b))
+    (hp : nd.s.proposalParts = some b) (hpd : nd.s.partsDone = false) (hv : c.cfg.valid b = true)
+    (ops : List Op) :
+    ((net.deliver c i k).run c ops).decidedAt i = some (b, (r : Int)) := by
+  apply decisions_are_final
+  rw [deliver_block_decidedAt c net i k b nd hi hk]
+  exact step_block_in_commit_step_decides (nodeCfg c.cfg nd.idx) nd.s r b hh hd hst hcr hm hp hpd hv
+
+/-- **the precommit that completes the +2/3 majority makes a node decide** (one input of the
+receive routine, own messages included; the vote-set arithmetic is the hypothesis `hm`) -/
+theorem commit_quorum_vote_decides (c : Cfg) (s : NodeState) (v : Vote) (peer : Peer) (r b : Nat)
+    (hh : s.halted = false) (hd : s.decided = none) (hr : s.round = r)
+    (hst : Step.precommit.rank ≤ s.step.rank ∧ s.step.rank < Step.commit.rank)
+    (hv : v.typ = .precommit ∧ v.round = r)
+    (hadd : (s.votes.addVote c v peer).2 = true)
+    (hm : maj23Of ((s.votes.addVote c v peer).1.precommits (r : Int)) = some (some b))
+    (hb : s.lockedBlock = some b ∨ (s.proposalBlock = some b ∧ s.proposalParts = some b))
+    (hval : c.valid b = true) :
+    (step c s (.vote v peer)).decided = some (b, (r : Int)) :=
+  step_commit_quorum_decides c s v peer r b hh hd hr hst hv hadd hm hb hval
+
 /-- the same for a synchronous suffix -/
 theorem decisions_are_final_in_suffix (c : SCfg) (net : Net) (moves : List Op) (i : Nat) (d : Nat × Int)
     (h : net.decidedAt i = some d) : (syncRun c net moves).decidedAt i = some d := by
@@ -204,6 +236,22 @@ theorem decisions_are_final_in_suffix (c : SCfg) (net : Net) (moves : List Op) (
   have h1 := Pres.foldl moves (fun net mv => (net.op c mv).closure c)
     (fun mv n => (op_pres c mv n).trans (closure_pres c _)) ({ net with synced := true }.closure c)
   exact (h0.trans h1).1 i d h
+
+/-- **in the synchronous suffix a timeout fires only when nothing else is enabled**: while the net
+is not closed (some message may still be undelivered) a `fire` move does nothing -/
+theorem suffix_timeout_needs_closed_net (c : SCfg) (net : Net) (i : Nat)
+    (hs : net.synced = true) (hc : net.closed = false) : net.op c (.fire i) = net := by
+  simp [Net.op, hs, hc]
+
+/-- … and only in the order of virtual time: a timer that expires more than `skew` after the
+earliest pending one does not fire -/
+theorem suffix_timeouts_in_time_order (c : SCfg) (net : Net) (i e m : Nat) (hs : net.synced = true)
+    (he : (net.nodes[i]?).bind Node.expiry = some e) (hm : net.minExpiry = some m)
+    (hlate : m + c.skew < e) : net.op c (.fire i) = net := by
+  have hne : ¬ (e ≤ m + c.skew) := by omega
+  cases hc : net.closed with
+  | false => simp [Net.op, hs, hc]
+  | true => simp [Net.op, hs, hc, Net.fireAllowed, he, hm, hne]
 
 /-! ### the property, and why it is false of the code as it stands -/
 
@@ -344,6 +392,15 @@ example : exWaiting.halted = false ∧ exWaiting.step = .commit ∧ exWaiting.co
 /-- … so the block's arrival at that moment decides (instance of the theorem, evaluated) -/
 example : (addBlockPart (nodeCfg exCfg.cfg 2) exWaiting 0).decided = some (0, 0) := by decide +kernel
 
+/-- the net in which validator 2 waits in the commit step, block 0 being log entry 1: the hypotheses
+of `commit_waiting_node_decides_on_delivery` hold and delivering the block decides (evaluated) -/
+def exWaitingNet : Net := (Net.init [0, 2, 3]).run exCfg (exPrefix.take 21)
+
+example : exWaitingNet.log[1]? = some (.block 0) ∧
+    (exWaitingNet.nodes[1]?.map fun nd => (nd.s.step, nd.s.halted, nd.s.decided, nd.s.partsDone)) =
+      some (.commit, false, none, false) ∧
+    (exWaitingNet.deliver exCfg 1 1).decidedAt 1 = some (0, 0) := by decide +kernel
+
 /-- the round-robin schedule of the witness configuration is fair with window 4 -/
 example : FairSchedule exCfg.cfg 4 := by
   intro v hv _ r
@@ -359,7 +416,7 @@ def exBehind : NodeState :=
 /-- … and with that prevote recorded: the hypotheses of `round_skip_on_prevotes` hold (not halted,
 in round 0 < 1, +2/3-any prevotes of round 1) -/
 def exBehind' : NodeState :=
-  { exBehind with votes := (exBehind.votes.addVote (nodeCfg exCfg.cfg 2) ⟨.prevote, 1, some 0, 3, true⟩ 4).1 }
+  { exBehind with votes := (exBehind.votes.addVote (nodeCfg exCfg.cfg 2) ⟨.prevote, 1, some 0, 1, true⟩ 2).1 }
 
 example : exBehind'.halted = false ∧ exBehind'.round < 1 ∧
     hasAnyOf (nodeCfg exCfg.cfg 2) (exBehind'.votes.prevotes 1) = true := by decide +kernel
